@@ -3,6 +3,11 @@
 (* Code: internal/server/handlers/readcommand.go read().                        *)
 (* One action per channel operation / branch of the two nested selects and the  *)
 (* deferred release.  The limiter is a buffered channel: tokens = len(limiter). *)
+(* A session is whatever reads files through this server process: an SSH session  *)
+(* of a client, and equally the session a scheduled or continuous job of the server *)
+(* opens to the server itself (scheduler.go, continuous.go) - "server-wide" means   *)
+(* one limiter for all of them (e2e.stage_scheduled); a session is cancelled when    *)
+(* its connection ends, whatever requests were made on it (TestC13Wire).            *)
 EXTENDS Integers, FiniteSets, Sequences, TLC
 CONSTANTS Reads,                 \* the file reads (one goroutine each)
           Cap,                   \* capacity of the limiter channel (MaxConcurrentCats / MaxConcurrentTails)
